@@ -1,3 +1,371 @@
-/-! # C06 — (stub: property theorems go here; see docs/BUILDING.md) -/
+import PtVerif.Proofs.LoadersField
+import PtVerif.Proofs.ParseUnc
+import PtVerif.Model.LoaderTables
+import PtVerif.Generated.MassTables
+import PtVerif.Generated.Density
+import PtVerif.Generated.Constants
+/-!
+# C06 — mass, abundance and density of every nuclide are those of the embedded tables
+
+Model: `PtVerif.Model.Loaders` (`parseUncertainty`, `Mass.loadText = parseMassTables ≫ Mass.load`,
+`loadRows` = the three passes of `mass.init` as folds, `Density.*`), tied to mass.py / density.py /
+util.py by `harness/ptv/props/C06.py`.
+
+Part 1 states the loader theorems for **every** table triple (any rows, any number type).
+Part 2 are kernel-checked facts about the tables embedded in the source *today*
+(`Generated.MassTables`, `Generated.Density`, regenerated on every run).  Part 3 instantiates
+part 1 on those tables.
+
+Not covered by theorems: floating-point rounding of `100·v/Σv`, `(hi+lo)/2`, `ρ·mᵢ/m` (compared
+at 1e-9 / 1e-13 by the correspondence and the oracle); that the string-level parse of the raw
+text equals the generated rows is checked by the compiled driver on every run, not by the kernel.
+-/
 namespace PtVerif.C06
+open PtLoad
+
+/-! ## Part 1 — every table -/
+
+section generic
+variable {α : Type} [Add α] [Sub α] [Mul α] [Div α] [OfNat α 0] [NatCast α] [IntCast α] [Transc α]
+  [BEq α]
+
+/-- every isotope is served the mass and uncertainty of *its* row of `isotope_mass`
+    (keys distinct); the neutron's isotope is fixed by constants.py -/
+theorem iso_mass_is_row (nm nmu : α) (t : MassTables) (hnd : (t.iso.map isoKey).Nodup)
+    (r : IsoRow) (hr : r ∈ t.iso) (hn : isoKey r ≠ (0, 1)) :
+    (loadRows nm nmu t).isoMassOf r.z r.a = some (r.m.eval : VU α) :=
+  PtLoad.iso_mass_is_row nm nmu t hnd r hr hn
+
+/-- without the distinctness assumption: the last row of a key wins -/
+theorem iso_mass_last_row (nm nmu : α) (t : MassTables) (pre post : List IsoRow) (r : IsoRow)
+    (ht : t.iso = pre ++ r :: post) (hlast : ∀ x ∈ post, isoKey x ≠ isoKey r)
+    (hn : isoKey r ≠ (0, 1)) :
+    (loadRows nm nmu t).isoMassOf r.z r.a = some (r.m.eval : VU α) :=
+  PtLoad.iso_mass_last_row nm nmu t pre post r ht hlast hn
+
+theorem neutron_iso_mass (nm nmu : α) (t : MassTables) :
+    (loadRows nm nmu t).isoMassOf 0 1 = some (some (nm, nmu)) := PtLoad.neutron_iso_mass nm nmu t
+
+/-- the isotopes of a loaded table are exactly those of the rows, the neutron, D and T -/
+theorem isotopes_are_rows (nm nmu : α) (t : MassTables) (z a : Nat) :
+    (loadRows nm nmu t).hasIsotope z a = true
+      ↔ (∃ r ∈ t.iso, r.z = z ∧ r.a = a) ∨ (z, a) = (0, 1) ∨ (z, a) = (1, 2) ∨ (z, a) = (1, 3) :=
+  has_isotope_iff nm nmu t z a
+
+/-- an element with a standard atomic weight in `element_mass` (not `-`) is served it -/
+theorem el_mass_is_override (nm nmu : α) (t : MassTables)
+    (hnd : ((overrides t.el).map Prod.fst).Nodup) (z : Nat) (u : Unc) (h : (z, u) ∈ overrides t.el) :
+    (loadRows nm nmu t).elMassOf z = some (u.eval : VU α) := el_mass_override nm nmu t hnd z u h
+
+/-- otherwise it is served the element-mass column of its last isotope row -/
+theorem el_mass_is_last_row (nm nmu : α) (t : MassTables) (pre post : List IsoRow) (r : IsoRow)
+    (ht : t.iso = pre ++ r :: post) (hlast : ∀ x ∈ post, x.z ≠ r.z) (hz : r.z ≠ 0)
+    (hno : ∀ p ∈ overrides t.el, p.1 ≠ r.z) :
+    (loadRows nm nmu t).elMassOf r.z = some (r.avg.eval : VU α) :=
+  el_mass_last_row nm nmu t pre post r ht hlast hz hno
+
+theorem el_mass_of_neutron (nm nmu : α) (t : MassTables) (hno : ∀ p ∈ overrides t.el, p.1 ≠ 0) :
+    (loadRows nm nmu t).elMassOf 0 = some (some (nm, nmu)) := el_mass_neutron nm nmu t hno
+
+/-- an element no table mentions has no mass (it is not served a neighbour's) -/
+theorem el_mass_absent (nm nmu : α) (t : MassTables) (z : Nat) (hz : z ≠ 0)
+    (hno : ∀ p ∈ overrides t.el, p.1 ≠ z) (hrows : ∀ r ∈ t.iso, r.z ≠ z) :
+    (loadRows nm nmu t).elMassOf z = none := PtLoad.el_mass_absent nm nmu t z hz hno hrows
+
+/-- an isotope listed in its element's section of the composition table is served
+    `100·v/Σv ± 100·u/Σv` (sum over the section) -/
+theorem abundance_normalised (nm nmu : α) (t : MassTables)
+    (pre post : List (Nat × List (Nat × Unc))) (z : Nat) (entries : List (Nat × Unc))
+    (hs : sectionsU t.ab = pre ++ (z, entries) :: post) (hlast : ∀ s ∈ post, s.1 ≠ z) (hz : z ≠ 0)
+    (a : Nat) (u : Unc) (hu : (a, u) ∈ entries) :
+    (loadRows nm nmu t).isoAbOf z a
+      = some (((100 : Nat) : α) * ((u.eval (α := α)).getD (0, 0)).1 / sectionTotal (α := α) entries,
+              ((100 : Nat) : α) * ((u.eval (α := α)).getD (0, 0)).2 / sectionTotal (α := α) entries) :=
+  PtLoad.abundance_normalised nm nmu t pre post z entries hs hlast hz a u hu
+
+/-- isotopes absent from the composition table have abundance 0 -/
+theorem abundance_zero_if_unlisted (nm nmu : α) (t : MassTables) (z a : Nat)
+    (hrow : ∃ r ∈ t.iso, r.z = z ∧ r.a = a) (hn : (z, a) ≠ (0, 1))
+    (hun : ∀ s ∈ sectionsU t.ab, s.1 = z → s.1 = 0 ∨ ∀ p ∈ s.2, p.1 ≠ a) :
+    (loadRows nm nmu t).isoAbOf z a = some ((0 : α), (0 : α)) :=
+  PtLoad.abundance_zero_if_unlisted nm nmu t z a hrow hn hun
+
+/-- pass 3 writes every section, *including the last one* (this is the statement the pinned
+    tree violated: uranium, D1) -/
+theorem every_section_is_written (st : MassState α) (ls : List AbLine) :
+    pass3 st ls = (sections (α := α) ls).foldl (fun st s => flush st s.1 s.2) st := pass3_eq st ls
+
+end generic
+
+/-- the abundances written for one element sum to 100 % (raw sum not zero; a zero sum is a
+    ZeroDivisionError in the real code and `loadOk = false` in the model) -/
+theorem abundances_sum_to_100 {α : Type} [Field α] (value : List (Nat × (α × α)))
+    (h : abTotal value ≠ 0) :
+    (value.map fun p => ((100 : Nat) : α) * p.2.1 / abTotal value).sum = 100 := normalised_sum value h
+
+/-- the element is served the entry of `element_densities` under its symbol -/
+theorem density_is_entry {α : Type} [Div α] [NatCast α] [IntCast α] (zOf : Nat → Option Nat)
+    (pre post : List DensityRow) (r : DensityRow) (z : Nat)
+    (hz : zOf r.sym = some z) (hlast : ∀ x ∈ post, zOf x.sym ≠ some z) :
+    elDensity (Density.loadRows (α := α) zOf (pre ++ r :: post)) z = some (r.value.map Dec.toNum) :=
+  PtLoad.density_is_entry zOf pre post r z hz hlast
+
+theorem density_absent {α : Type} [Div α] [NatCast α] [IntCast α] (zOf : Nat → Option Nat)
+    (rows : List DensityRow) (z : Nat) (h : ∀ x ∈ rows, zOf x.sym ≠ some z) :
+    elDensity (Density.loadRows (α := α) zOf rows) z = none := PtLoad.density_absent zOf rows z h
+
+/-- `n = ρ·N_A/m` -/
+theorem n_eq_rho_NA_over_m {α : Type} [Field α] [Transc α] (na rho m : α) :
+    numberDensityVal na rho m = rho * na / m := number_density_eq na rho m
+
+/-- `n·d³ = 10²⁴` -/
+theorem n_mul_d_cubed (na rho m : ℝ) (hna : 0 < na) (hrho : 0 < rho) (hm : 0 < m) :
+    numberDensityVal na rho m * interatomicDistanceVal na rho m ^ 3 = 10 ^ 24 :=
+  PtLoad.n_mul_d_cubed na rho m hna hrho hm
+
+/-- isotope density = element density × mass ratio -/
+theorem isotope_density_is_scaled {α : Type} [Field α] [Transc α] (rho mi me : α) :
+    isoDensityVal rho mi me = rho * mi / me := isotope_density_ratio rho mi me
+
+/-- … and it is unknown (`None`), not an error, when the element's density is unknown -/
+theorem isotope_density_unknown {α : Type} [Mul α] [Div α] [OfNat α 0] [BEq α] (mi me : Option (Option α)) :
+    isoDensity (some none) mi me = some none := rfl
+
+/-- number density and interatomic distance are unknown when the density is -/
+theorem derived_unknown {α : Type} (bad : α → α → Bool) (f : α → α → α) (m : Option (Option α)) :
+    elDerived bad f (some none) m = some none := rfl
+
+/-! ### the three notations, read as documented – for digit strings of any length -/
+
+/-- **`value(unc)`**: `ip.fp(u)` (and `ip.fp(u)#`, …) is the value `ip.fp` with the uncertainty
+    `u` in units of the last digit of the value: `23.0035(12)` is `23.0035 ± 0.0012` -/
+theorem parseUncertainty_value_unc (ip fp u tail : Str) (hip : Digits ip) (hfp : Digits fp) (hu : Digits u)
+    (hine : ip ≠ []) (hlen : u.length ≤ fp.length) :
+    parseUncertainty (ip ++ '.' :: fp ++ '(' :: u ++ ')' :: tail)
+      = some (.valUnc ⟨(natOf (ip ++ fp) : Int), fp.length⟩ ⟨(natOf u : Int), fp.length⟩) :=
+  parseUncertainty_valunc ip fp u tail hip hfp hu hine hlen
+
+/-- **`[nominal]`** has uncertainty zero -/
+theorem parseUncertainty_nominal (ip : Str) (hip : Digits ip) (hne : ip ≠ []) :
+    parseUncertainty ('[' :: (ip ++ [']'])) = some (.nominal ⟨(natOf ip : Int), 0⟩) :=
+  parseUncertainty_nominal_int ip hip hne
+
+theorem parseUncertainty_nominal_decimal (ip fp : Str) (hip : Digits ip) (hfp : Digits fp)
+    (hne : ip ≠ [] ∨ fp ≠ []) :
+    parseUncertainty ('[' :: ((ip ++ '.' :: fp) ++ [']']))
+      = some (.nominal ⟨(natOf (ip ++ fp) : Int), fp.length⟩) := PtLoad.parseUncertainty_nominal ip fp hip hfp hne
+
+/-- **`[low,high]`**: both ends are read exactly … -/
+theorem parseUncertainty_range (ip1 fp1 ip2 fp2 : Str) (h1 : Digits ip1) (h2 : Digits fp1)
+    (h3 : Digits ip2) (h4 : Digits fp2) (hne1 : ip1 ≠ [] ∨ fp1 ≠ []) (hne2 : ip2 ≠ [] ∨ fp2 ≠ []) :
+    parseUncertainty ('[' :: (((ip1 ++ '.' :: fp1) ++ ',' :: (ip2 ++ '.' :: fp2)) ++ [']']))
+      = some (.range ⟨(natOf (ip1 ++ fp1) : Int), fp1.length⟩ ⟨(natOf (ip2 ++ fp2) : Int), fp2.length⟩) :=
+  PtLoad.parseUncertainty_range ip1 fp1 ip2 fp2 h1 h2 h3 h4 hne1 hne2
+
+/-- … and a range stands for its mean with the 1-sigma width of a rectangular distribution -/
+theorem range_is_mean_and_width {α : Type} [Field α] [Transc α] (lo hi : Dec) :
+    (Unc.range lo hi).eval (α := α)
+      = some ((hi.toNum + lo.toNum) / 2, (hi.toNum - lo.toNum) / Transc.sqrt 12) := by
+  simp [Unc.eval, Unc.val, Unc.unc]
+
+/-- a bare value has uncertainty zero, a blank field is `(None, None)` -/
+theorem parseUncertainty_bare (ip fp : Str) (hip : Digits ip) (hfp : Digits fp) (hine : ip ≠ []) :
+    parseUncertainty (ip ++ '.' :: fp) = some (.plain ⟨(natOf (ip ++ fp) : Int), fp.length⟩) :=
+  parseUncertainty_plain ip fp hip hfp hine
+
+theorem parseUncertainty_blank : parseUncertainty [] = some .missing := rfl
+
+/-! concrete instances -/
+example : parseUncertainty "23.0035(12)".toList = some (.valUnc ⟨230035, 4⟩ ⟨12, 4⟩) := by decide +kernel
+example : parseUncertainty "5.03987(215)#".toList = some (.valUnc ⟨503987, 5⟩ ⟨215, 5⟩) := by decide +kernel
+example : parseUncertainty "23.0(1.0)".toList = some (.valUnc ⟨230, 1⟩ ⟨10, 1⟩) := by decide +kernel
+example : parseUncertainty "[289]".toList = some (.nominal ⟨289, 0⟩) := by decide +kernel
+example : parseUncertainty "[28.084,28.086]".toList = some (.range ⟨28084, 3⟩ ⟨28086, 3⟩) := by decide +kernel
+example : parseUncertainty "".toList = some .missing := by decide +kernel
+example : parseUncertainty "1.2.3(4)".toList = none := by decide +kernel
+
+/-! ## Part 2 — the embedded tables (kernel-checked on every run) -/
+
+/-- `isotope_mass`: keys `(Z, A)` strictly increasing, hence distinct -/
+theorem iso_keys_sorted : strictSorted (PtGen.isoMassRows.map isoKey) = true := by decide +kernel
+
+theorem iso_keys_distinct : (PtGen.isoMassRows.map isoKey).Nodup :=
+  nodup_of_strictSorted _ iso_keys_sorted
+
+/-- no row of `isotope_mass` is the neutron's -/
+theorem iso_rows_not_neutron : PtGen.isoMassRows.all (fun r => r.z != 0) = true := by decide +kernel
+
+/-- every row names an element of `core.element_base` by number and symbol (the `assert`);
+    checked per run of rows with equal Z -/
+theorem iso_rows_symbols_grouped : groupSymbolsOk symOf (groupByZ PtGen.isoMassRows) = true := by
+  decide +kernel
+
+theorem iso_rows_symbols : pass1Ok symOf PtGen.isoMassRows = true :=
+  pass1Ok_of_groups symOf _ iso_rows_symbols_grouped
+
+/-- every element 1…118 has isotope-mass rows -/
+theorem every_element_has_rows :
+    allZ.all (fun z => z == 0 || ((groupByZ PtGen.isoMassRows).map Prod.fst).contains z) = true := by
+  decide +kernel
+
+/-- `element_mass`: atomic numbers strictly increasing; no `-` rows are needed for this -/
+theorem el_keys_sorted : incr ((overrides PtGen.elMassRows).map Prod.fst) = true := by decide +kernel
+
+theorem el_rows_exist : pass2Ok symOf PtGen.elMassRows = true := by decide +kernel
+
+/-- `isotope_abundance`: one section per element, atomic numbers strictly increasing (the
+    leading pseudo-section of element 0 is empty) -/
+theorem ab_headers_sorted : incr ((sectionsU PtGen.abLines).map Prod.fst) = true := by decide +kernel
+
+theorem ab_first_section_empty : (sectionsU PtGen.abLines).head? = some (0, []) := by decide +kernel
+
+/-- every isotope named in the composition table has a row in the isotope-mass table -/
+theorem ab_isotopes_have_rows_grouped :
+    sectionsHaveRows (groupByZ PtGen.isoMassRows) (sectionsU PtGen.abLines) = true := by decide +kernel
+
+theorem ab_isotopes_have_rows :
+    ∀ s ∈ sectionsU PtGen.abLines, ∀ p ∈ s.2, (s.1, p.1) ∈ PtGen.isoMassRows.map isoKey :=
+  sectionsHaveRows_sound _ _ ab_isotopes_have_rows_grouped
+
+/-- every fraction of the composition table is a positive number (so every section's sum is
+    positive and the normalisation is defined) -/
+theorem ab_values_positive :
+    (sectionsU PtGen.abLines).all (fun s => s.2.all fun p => decide p.2.Pos) = true := by decide +kernel
+
+/-- no composition entry is listed twice within its section (`dict` would silently keep the
+    second) – lines and dict entries are in one-to-one correspondence -/
+theorem ab_entries_once :
+    (PtGen.abLines.filter (fun l => match l with | .entry _ _ => true | _ => false)).length
+      = ((sectionsU PtGen.abLines).map (fun s => s.2.length)).sum := by decide +kernel
+
+/-- **atomic weights are consistent**: for every element listed in the composition table,
+    `|A_r − Σ aᵢ·mᵢ/Σ aᵢ| ≤ u(A_r)` in exact rational arithmetic -/
+theorem atomic_weight_consistent : weightConsistent PtGen.massTables = true := by decide +kernel
+
+/-- `element_densities`: every key is the symbol of an element, keys distinct, every element
+    of the table has an entry -/
+theorem density_keys_are_elements : Density.loadOk zOf PtGen.densityRows = true := by decide +kernel
+
+theorem density_keys_distinct :
+    incr ((PtGen.densityRows.filterMap fun r => zOf r.sym)) = true := by decide +kernel
+
+theorem density_covers_table :
+    allZ.all (fun z => PtGen.densityRows.any fun r => zOf r.sym == some z) = true := by decide +kernel
+
+/-! ## Part 3 — part 1 on the embedded tables -/
+
+section generated
+variable {α : Type} [Add α] [Sub α] [Mul α] [Div α] [OfNat α 0] [NatCast α] [IntCast α] [Transc α]
+  [BEq α]
+
+/-- every one of the 2939 nuclides of `isotope_mass` is served its own row -/
+theorem generated_iso_mass (nm nmu : α) (r : IsoRow) (hr : r ∈ PtGen.isoMassRows) :
+    (loadRows nm nmu PtGen.massTables).isoMassOf r.z r.a = some (r.m.eval : VU α) := by
+  apply PtLoad.iso_mass_is_row nm nmu PtGen.massTables iso_keys_distinct r hr
+  have := List.all_eq_true.mp iso_rows_not_neutron r hr
+  intro e
+  simp [isoKey] at e
+  simp [e.1] at this
+
+/-- every element with a standard atomic weight is served it -/
+theorem generated_el_mass (nm nmu : α) (z : Nat) (u : Unc) (h : (z, u) ∈ overrides PtGen.elMassRows) :
+    (loadRows nm nmu PtGen.massTables).elMassOf z = some (u.eval : VU α) :=
+  el_mass_override nm nmu PtGen.massTables (nodup_of_incr _ el_keys_sorted) z u h
+
+/-- an element without a standard atomic weight (Tc, Pm, Po … Og) is served the element-mass
+    column of the last of its isotope rows -/
+theorem generated_el_mass_from_rows (nm nmu : α) (z : Nat) (hz : z ≠ 0)
+    (hrows : ∃ y ∈ PtGen.isoMassRows, y.z = z) (hno : ∀ p ∈ overrides PtGen.elMassRows, p.1 ≠ z) :
+    ∃ r ∈ PtGen.isoMassRows, r.z = z ∧
+      (loadRows nm nmu PtGen.massTables).elMassOf z = some (r.avg.eval : VU α) := by
+  obtain ⟨pre, r, post, hsplit, hrz, hpost⟩ := exists_last_of_z PtGen.isoMassRows z hrows
+  refine ⟨r, by rw [hsplit]; simp, hrz, ?_⟩
+  subst hrz
+  exact el_mass_last_row nm nmu PtGen.massTables pre post r hsplit hpost hz hno
+
+/-- every isotope listed in the composition table – of every element, the last one (U)
+    included – is served its normalised abundance -/
+theorem generated_abundance (nm nmu : α) (z : Nat) (entries : List (Nat × Unc))
+    (hs : (z, entries) ∈ sectionsU PtGen.abLines) (hz : z ≠ 0) (a : Nat) (u : Unc) (hu : (a, u) ∈ entries) :
+    (loadRows nm nmu PtGen.massTables).isoAbOf z a
+      = some (((100 : Nat) : α) * ((u.eval (α := α)).getD (0, 0)).1 / sectionTotal (α := α) entries,
+              ((100 : Nat) : α) * ((u.eval (α := α)).getD (0, 0)).2 / sectionTotal (α := α) entries) := by
+  obtain ⟨pre, post, hsplit, hlast⟩ :=
+    split_of_mem_nodup (fun s : Nat × List (Nat × Unc) => s.1) (sectionsU PtGen.abLines)
+      (nodup_of_incr _ ab_headers_sorted) (z, entries) hs
+  exact PtLoad.abundance_normalised nm nmu PtGen.massTables pre post z entries hsplit hlast hz a u hu
+
+/-- every nuclide of `isotope_mass` that the composition table does not list has abundance 0 -/
+theorem generated_abundance_zero (nm nmu : α) (r : IsoRow) (hr : r ∈ PtGen.isoMassRows)
+    (hun : ∀ s ∈ sectionsU PtGen.abLines, s.1 = r.z → ∀ p ∈ s.2, p.1 ≠ r.a) :
+    (loadRows nm nmu PtGen.massTables).isoAbOf r.z r.a = some ((0 : α), (0 : α)) := by
+  apply PtLoad.abundance_zero_if_unlisted nm nmu PtGen.massTables r.z r.a ⟨r, hr, rfl, rfl⟩
+  · have := List.all_eq_true.mp iso_rows_not_neutron r hr
+    intro e
+    simp at e
+    simp [e.1] at this
+  · intro s hs e; right; exact hun s hs e
+
+/-- every entry of `element_densities` is served to the element it names -/
+theorem generated_density (r : DensityRow) (hr : r ∈ PtGen.densityRows) (z : Nat) (hz : zOf r.sym = some z) :
+    elDensity (Density.loadRows (α := α) zOf PtGen.densityRows) z = some (r.value.map Dec.toNum) := by
+  obtain ⟨pre, post, hsplit⟩ := List.append_of_mem hr
+  rw [hsplit]
+  apply PtLoad.density_is_entry zOf pre post r z hz
+  intro x hx e
+  have hs := nodup_of_incr _ density_keys_distinct
+  rw [hsplit, List.filterMap_append, List.filterMap_cons, hz] at hs
+  have := (List.nodup_append.mp hs).2.1
+  rw [List.nodup_cons] at this
+  exact this.1 (List.mem_filterMap.mpr ⟨x, hx, e⟩)
+
+end generated
+
+theorem ab_values_pos : ∀ s ∈ sectionsU PtGen.abLines, ∀ p ∈ s.2, p.2.Pos := by
+  intro s hs p hp
+  have := List.all_eq_true.mp (List.all_eq_true.mp ab_values_positive s hs) p hp
+  simpa using this
+
+/-- on the embedded tables every element's abundances sum to 100 %, over any ordered field -/
+theorem generated_abundances_sum_to_100 {α : Type} [Field α] [LinearOrder α] [IsStrictOrderedRing α]
+    [Transc α] (z : Nat) (entries : List (Nat × Unc))
+    (hs : (z, entries) ∈ sectionsU PtGen.abLines) (hne : entries ≠ []) :
+    ((entries.map (evalEntry (α := α))).map
+        fun p => ((100 : Nat) : α) * p.2.1 / sectionTotal (α := α) entries).sum = 100 := by
+  apply normalised_sum
+  exact ne_of_gt (section_total_pos (α := α) entries hne (ab_values_pos (z, entries) hs))
+
+/-- no composition entry is blank and every section names an element of the table -/
+theorem ab_lines_ok : PtGen.abLines.all entryOk = true := by decide +kernel
+
+theorem ab_sections_elements_exist :
+    (sectionsU PtGen.abLines).all (fun s => s.1 == 0 || (symOf s.1).isSome) = true := by decide +kernel
+
+/-- **`mass.init` runs to completion on the embedded tables** (no KeyError, AssertionError,
+    ZeroDivisionError), over any ordered field – so everything part 1 says about `loadRows` is
+    what `Mass.load` returns -/
+theorem generated_load_ok {α : Type} [Field α] [LinearOrder α] [IsStrictOrderedRing α] [Transc α] :
+    loadOk (α := α) symOf PtGen.massTables = true := by
+  apply loadOk_of_wellformed symOf PtGen.massTables iso_rows_symbols (by decide +kernel) el_rows_exist
+  · intro l hl; exact List.all_eq_true.mp ab_lines_ok l hl
+  · intro s hs
+    have := List.all_eq_true.mp ab_sections_elements_exist s hs
+    simp only [Bool.or_eq_true, beq_iff_eq] at this
+    exact this
+  · exact ab_isotopes_have_rows
+  · exact ab_values_pos
+
+theorem generated_load {α : Type} [Field α] [LinearOrder α] [IsStrictOrderedRing α] [Transc α] (nm nmu : α) :
+    Mass.load symOf nm nmu PtGen.massTables = some (loadRows nm nmu PtGen.massTables) := by
+  unfold Mass.load
+  rw [if_pos generated_load_ok]
+
+/-! non-vacuity: the generic statements have instances in the embedded tables -/
+example : (rowOf (groupByZ PtGen.isoMassRows) 92 235).isSome = true := by decide +kernel
+example : (92, [(234, Unc.valUnc ⟨54, 6⟩ ⟨5, 6⟩), (235, .valUnc ⟨7204, 6⟩ ⟨6, 6⟩),
+    (238, .valUnc ⟨992742, 6⟩ ⟨10, 6⟩)]) ∈ sectionsU PtGen.abLines := by decide +kernel
+example : ∃ s ∈ sectionsU PtGen.abLines, s.1 = 8 ∧ s.2.length = 3 := by decide +kernel
+example : numberDensityVal (6 : ℝ) 2 3 * interatomicDistanceVal 6 2 3 ^ 3 = 10 ^ 24 :=
+  n_mul_d_cubed 6 2 3 (by norm_num) (by norm_num) (by norm_num)
+
 end PtVerif.C06
